@@ -20,7 +20,8 @@ func stdVariants(profile string) []variant {
 	return []variant{
 		{Name: profile + "-nofault", Profile: profile, Policy: "rtc", Steps: 90, Weight: 3},
 		{Name: profile + "-confirm", Profile: profile, Policy: "rtc", Steps: 90, Faults: confirmFaults, FaultRate: 0.03, Weight: 3},
-		{Name: profile + "-churn", Profile: profile, Policy: "rtc", Steps: 90, Faults: with(confirmFaults, "node_loss", "app_remove_live", "req_dup", "clock_jump"), FaultRate: 0.03, Weight: 3},
+		{Name: profile + "-churn", Profile: profile, Policy: "rtc", Steps: 90, Faults: with(confirmFaults, "node_loss", "app_remove_live", "req_dup", "clock_jump", "predicate_flap"), FaultRate: 0.03, Weight: 3},
+		{Name: profile + "-deadline", Profile: profile, Policy: "rtc", Steps: 90, Faults: with(confirmFaults, "deadline_race", "predicate_flap"), FaultRate: 0.05, Weight: 2},
 		{Name: profile + "-interleaved", Profile: profile, Policy: "rnd", PreemptP: 0.05, Steps: 70, Faults: with(confirmFaults, "xchan_reorder", "node_loss", "app_remove_live"), FaultRate: 0.03, Weight: 2},
 	}
 }
@@ -44,7 +45,13 @@ var plans = map[string]plan{
 	"C15": {Variants: append(reloadVariants("quota"), reloadVariants("limits")...), QuickRuns: 400, QuickSecs: 70, ThoroughRuns: 40000, ThoroughSecs: 1500},
 	"C16": {Variants: append(append(reloadVariants("quota"), reloadVariants("limits")...), reloadVariants("base")...), QuickRuns: 400, QuickSecs: 70, ThoroughRuns: 40000, ThoroughSecs: 1500},
 	"C06": {Variants: append(stdVariants("gang"), variant{Name: "gang-clock", Profile: "gang", Policy: "rtc", Steps: 90, Faults: with(confirmFaults, "clock_jump", "node_loss"), FaultRate: 0.05, Weight: 4}), QuickRuns: 400, QuickSecs: 70, ThoroughRuns: 40000, ThoroughSecs: 1500},
-	"C09": {Variants: stdVariants("base"), QuickRuns: 400, QuickSecs: 70, ThoroughRuns: 40000, ThoroughSecs: 1500},
+	"C13": {Variants: []variant{
+		{Name: "malformed-base", Profile: "base", Policy: "rtc", Steps: 90, Faults: []string{"malformed"}, FaultRate: 0.03, Weight: 3},
+		{Name: "malformed-gang", Profile: "gang", Policy: "rtc", Steps: 90, Faults: with(confirmFaults, "malformed", "node_loss", "app_remove_live"), FaultRate: 0.03, Weight: 3},
+		{Name: "malformed-limits", Profile: "limits", Policy: "rtc", Steps: 90, Faults: []string{"malformed", "req_dup"}, FaultRate: 0.03, Weight: 2},
+		{Name: "malformed-interleaved", Profile: "base", Policy: "rnd", PreemptP: 0.05, Steps: 70, Faults: []string{"malformed", "xchan_reorder", "node_loss"}, FaultRate: 0.03, Weight: 2},
+	}, QuickRuns: 400, QuickSecs: 70, ThoroughRuns: 40000, ThoroughSecs: 1500, Level: "fault_enumeration"},
+	"C09": {Variants: append(stdVariants("base"), stdVariants("gang")[1], stdVariants("gang")[2], stdVariants("gang")[4]), QuickRuns: 400, QuickSecs: 70, ThoroughRuns: 40000, ThoroughSecs: 1500},
 	"C10": {Variants: append(stdVariants("base"), stdVariants("gang")...), QuickRuns: 400, QuickSecs: 70, ThoroughRuns: 40000, ThoroughSecs: 1500},
 	"C11": {Variants: append(stdVariants("maxapps"), reloadVariants("maxapps")[0], reloadVariants("maxapps")[1]), QuickRuns: 400, QuickSecs: 70, ThoroughRuns: 40000, ThoroughSecs: 1500},
 }
